@@ -71,6 +71,7 @@ impl<'a> Marker<'a> {
                 _ => close.0,
             };
             self.ins(tail_pos, format!("/*@F{}:TAIL@*/", idx));
+            self.ins(close.0, format!("/*@F{}:BODYEND@*/", idx));
         } else if let Some(p) = semi_pos {
             self.ins(p, format!("/*@F{}:SIG@*/", idx));
         }
